@@ -20,7 +20,9 @@ exactly what production writes.
 World.run() executes one iteration of treadmill.sproc.trace's cleanup loop
 (minus the two prune_trace_* calls, which delete live events on purpose and are
 not archiving) with the real sqlite3/zlib, optionally with the k-th ZooKeeper
-write raising fakezk.InjectedFault. World.check() is the oracle; it never
+write failing: the process stops there (ArchiverStopped) or the request fails
+with a real kazoo exception and the code under test carries on as it sees fit
+(see FAULT_KINDS). World.check() is the oracle; it never
 shares code with the archiver except download_batch, which the property names
 as the retrieval path for trace events.
 """
@@ -75,8 +77,7 @@ FAMILIES = {
 FAMILY_ORDER = ('trace', 'finished', 'server')
 
 # What can happen at a ZooKeeper write of the archiving run:
-#  stop      the archiver process dies there (a plain exception nothing in the
-#            code under test may handle),
+#  stop      the archiver process dies there (ArchiverStopped, a BaseException),
 #  connloss  this one request fails with kazoo's ConnectionLoss and is not
 #            applied; the process lives on and the real code decides whether
 #            to retry (zkutils.with_retry), propagate or swallow,
@@ -84,9 +85,15 @@ FAMILY_ORDER = ('trace', 'finished', 'server')
 FAULT_KINDS = ('stop', 'connloss', 'expired')
 
 
+class ArchiverStopped(BaseException):
+    """The archiver process dies at this write. A BaseException so that no
+    `except Exception` of the code under test can 'survive' it (the role of
+    fakezk.InjectedFault, which is an Exception subclass)."""
+
+
 def _fault(kind, text):
     if kind == 'stop':
-        return fakezk.InjectedFault(text)
+        return ArchiverStopped(text)
     if kind == 'connloss':
         return kazoo.exceptions.ConnectionLoss(text)
     if kind == 'expired':
@@ -484,7 +491,7 @@ class World(object):
                     server_zk.cleanup_server_trace(zkc, par['trace_batch'])
                     server_zk.cleanup_server_trace_history(
                         zkc, par['trace_hist_max'])
-                except fakezk.InjectedFault:
+                except ArchiverStopped:
                     outcome = 'stopped'
                 except kazoo.exceptions.KazooException:
                     if not self.fired:
